@@ -958,6 +958,63 @@ func (w *world) quiesce() {
 	w.dead = "settle:" + strings.SplitN(msg, "\n", 2)[0]
 }
 
+// call runs one call of the session's public API in a goroutine of its own and waits for quiescence: a call that
+// does not return by then is parked inside the code under test (result `parked`, and a finding: none of Send, Close,
+// Start, Set, UpdateHandler may block); a panic in it becomes the line's result. The harness itself never blocks.
+func (w *world) call(what string, fn func()) (returned bool, panicked string) {
+	done := make(chan struct{})
+	var pmsg string
+	go func() {
+		defer close(done)
+		defer func() {
+			if p := recover(); p != nil {
+				pmsg = fmt.Sprint(p)
+			}
+		}()
+		fn()
+	}()
+	ok := w.waitDone(done, what)
+	if ok {
+		return true, pmsg
+	}
+	return false, ""
+}
+
+// waitDone waits for a goroutine that calls into the code under test. false: it is still parked at quiescence.
+func (w *world) waitDone(done chan struct{}, what string) bool {
+	for i := 0; i < 20; i++ {
+		select {
+		case <-done:
+			return true
+		default:
+			runtime.Gosched()
+		}
+	}
+	deadline := time.Now().Add(6 * ceiling)
+	for {
+		if !w.tcp {
+			w.quiesce()
+		}
+		select {
+		case <-done:
+			return true
+		default:
+		}
+		if w.dead != "" || w.spin {
+			return false
+		}
+		if !w.tcp || time.Now().After(deadline) {
+			if w.tcp && !quietNow() {
+				w.dead = "a call into the code under test did not return within the ceiling while goroutines were still running: " + what
+				return false
+			}
+			w.hit("C16:api:call-never-returns", what+" did not return: the caller is parked inside the code under test")
+			return false
+		}
+		time.Sleep(500 * time.Microsecond)
+	}
+}
+
 func (w *world) hit(key, what string) {
 	for _, h := range w.hits {
 		if h.key == key {
@@ -996,7 +1053,7 @@ func (w *world) peerWrite(cs *cstate, b byte) bool {
 }
 
 func (w *world) op(f []string) string {
-	three := f[0] == "send" || f[0] == "wpart" || f[0] == "wtemp" || f[0] == "setv"
+	three := f[0] == "send" || f[0] == "wpart" || f[0] == "wtemp" || f[0] == "setv" || f[0] == "sendn"
 	if len(f) < 2 || three != (len(f) == 3) || len(f) > 3 {
 		return "bad-op"
 	}
@@ -1037,7 +1094,12 @@ func (w *world) op(f []string) string {
 				bs = append(bs, byte(v))
 			}
 		}
-		if e := s.Send(bs); e != nil {
+		var e error
+		if ok, pan := w.call("Session.Send", func() { e = s.Send(bs) }); !ok {
+			ret = "parked"
+		} else if pan != "" {
+			return "panic:" + pan
+		} else if e != nil {
 			ret = "closed"
 		} else {
 			cs.accepted = append(cs.accepted, bs)
@@ -1053,18 +1115,71 @@ func (w *world) op(f []string) string {
 			_, _, b, _, _ := cs.snapshot()
 			return len(b) >= want || endedCond()
 		})
+	case "sendn":
+		// a backlog: n one-byte Sends in a row (payload i = the byte i mod 250 + 1)
+		if w.echo {
+			return "bad-op"
+		}
+		n, err := strconv.Atoi(f[2])
+		if err != nil || n < 1 || n > 400 || strconv.Itoa(n) != f[2] {
+			return "bad-op"
+		}
+		acc := 0
+		for i := 0; i < n; i++ {
+			bs := []byte{byte(i%250 + 1)}
+			var e error
+			ok, pan := w.call("Session.Send", func() { e = s.Send(bs) })
+			if !ok {
+				ret = "parked"
+				break
+			}
+			if pan != "" {
+				return "panic:" + pan
+			}
+			if e == nil {
+				cs.accepted = append(cs.accepted, bs)
+				acc++
+			}
+			// every Send is an event of its own: the session reacts before the next one
+			wantI := len(buf0) + acc
+			w.settle(func() bool {
+				_, _, b, _, _ := cs.snapshot()
+				return len(b) >= wantI || endedCond()
+			})
+			if w.dead != "" {
+				break
+			}
+		}
+		if ret == "ok" {
+			ret = "ok" + strconv.Itoa(acc)
+		}
+		want := len(buf0) + acc
+		w.settle(func() bool {
+			_, _, b, _, _ := cs.snapshot()
+			return len(b) >= want || endedCond()
+		})
 	case "close":
 		if len(f) != 2 {
 			return "bad-op"
 		}
-		s.Close()
+		if ok, pan := w.call("Session.Close", func() { s.Close() }); !ok {
+			ret = "parked"
+		} else if pan != "" {
+			return "panic:" + pan
+		}
 		cs.closedLocal = true
 		w.settle(endedCond)
 	case "start":
-		if w.echo {
-			cs.e.Start()
-		} else {
-			s.Start()
+		if ok, pan := w.call("Start", func() {
+			if w.echo {
+				cs.e.Start()
+			} else {
+				s.Start()
+			}
+		}); !ok {
+			ret = "parked"
+		} else if pan != "" {
+			return "panic:" + pan
 		}
 		w.settle(func() bool { return true })
 	case "setv":
@@ -1087,15 +1202,19 @@ func (w *world) op(f []string) string {
 			break
 		}
 		cs.valueKind = kind
-		switch f[2] {
-		case "str":
-			s.Set("user-42")
-		case "kz":
-			s.Set(&keyZapValue{id: 42})
-		case "nilkz":
-			s.Set((*keyZapValue)(nil))
-		default:
-			return "bad-op"
+		if ok, pan := w.call("Session.Set", func() {
+			switch f[2] {
+			case "str":
+				s.Set("user-42")
+			case "kz":
+				s.Set(&keyZapValue{id: 42})
+			case "nilkz":
+				s.Set((*keyZapValue)(nil))
+			}
+		}); !ok {
+			ret = "parked"
+		} else if pan != "" {
+			return "panic:" + pan
 		}
 		if s.Get() == nil {
 			w.hit("C16:sess:value-lost", "Session.Get() returns nil after Session.Set(v)")
@@ -1104,7 +1223,11 @@ func (w *world) op(f []string) string {
 	case "uh":
 		// replace the session's handler by another one with the same behaviour (exercises UpdateHandler and the
 		// `s.rh != nil` branches of loopReceive and quit)
-		s.UpdateHandler(&handler{registry: w.h.registry, tag: 2})
+		if ok, pan := w.call("Session.UpdateHandler", func() { s.UpdateHandler(&handler{registry: w.h.registry, tag: 2}) }); !ok {
+			ret = "parked"
+		} else if pan != "" {
+			return "panic:" + pan
+		}
 		w.settle(func() bool { return true })
 	case "xpanic", "xblock":
 		cs.mu.Lock()
@@ -1405,7 +1528,7 @@ func (w *world) destroy() {
 		s := cs.s
 		cs.mu.Unlock()
 		if s != nil {
-			s.Close()
+			go s.Close() // never from the harness goroutine: a Close that blocks must not hang the run
 		}
 	}
 	select {
